@@ -191,6 +191,8 @@ def gen_extract(r, prop, client, risky_rate=0.04, force_small=False,
         op['header'] = r.pick(['code', 'value', 'Name', 'id'])
         if r.chance(0.4):
             op['out_file'] = r.pick(['out.txt', 'rex.txt'])
+            if r.chance(0.25):
+                op['io_fault'] = True
         if not op['examples']:
             op['form'] = 'list'
             op['examples'] = examples
@@ -305,6 +307,7 @@ def gen_plan(prop, r, tier, run):
             if prop == 'C13':
                 op['tagpair'] = True
                 op['opts'].pop('tag', None)
+                op['tag_by_reextract'] = r.chance(0.25)
             if prop == 'C18':
                 op['cov'] = True
                 op['reextract'] = r.chance(0.3)
@@ -313,6 +316,8 @@ def gen_plan(prop, r, tier, run):
                     op.pop('split', None)
                 if op['form'] == 'streams':
                     op['form'] = 'list'
+                    for k in ('out_file', 'io_fault'):
+                        op.pop(k, None)
             ops.append(op)
     for i, op in enumerate(ops):
         op['i'] = i
@@ -327,8 +332,8 @@ def gen_c14(r, clients):
         tgt.pop('split', None)
     if tgt['form'] == 'streams':
         tgt['form'] = 'list'
-        for k in ('skip_header', 'header'):
-            tgt.pop(k, None)
+    for k in ('skip_header', 'header', 'out_file', 'io_fault'):
+        tgt.pop(k, None)
     if tgt['form'] == 'dict':
         # canonical target is a list; dict is one of the variants
         ex = []
@@ -444,10 +449,19 @@ def gen_c14(r, clients):
         # caller passing one list object twice
         lines = [s for s in ex if s is not None]
         sh = r.chance(0.7)
+        of = 'out.txt' if r.chance(0.5) else None
+        if of:
+            # the results go to a file that holds the (longer) results of
+            # an earlier, unrelated run
+            ops.append({'op': 'stale_out', 'client': 'A', 'out_file': of,
+                        'lines': ['^[A-Z]{2}\\-[0-9]{3,5}\\ earlier\\ run$']
+                        * r.randint(2, 6)})
         for nm in ('streams', 'streams-again'):
-            ops.append(variant(nm, form='streams', examples=lines,
-                               skip_header=sh, header='code',
-                               stream_key='K0'))
+            v = variant(nm, form='streams', examples=lines,
+                        skip_header=sh, header='code', stream_key='K0')
+            if of:
+                v['out_file'] = of
+            ops.append(v)
     if r.chance(0.35):
         # the same strings as Pandas columns (pdextract takes no options, so
         # its list-form peer is a call with default options and sizes)
@@ -654,6 +668,13 @@ def execute(plan):
                 random.seed(plan['config']['random0'])
                 ctx.events.append({'i': op['i'], 'op': 'fresh_process'})
                 ctx.shape.append('F')
+            elif op['op'] == 'stale_out':
+                with io.open(ctx.W.path('data', op['out_file']), 'w',
+                             encoding='utf-8') as f:
+                    f.write('\n'.join(op['lines']) + '\n')
+                ctx.stats['faults']['stale_results_file_planted'] += 1
+                ctx.events.append({'i': op['i'], 'op': 'stale_out'})
+                ctx.shape.append('S')
             elif op['op'] == 'extract':
                 run_extract_op(ctx, op)
         if len(clients_seen) > 1:
@@ -765,9 +786,28 @@ def call_extract(ctx, op, tag=None, as_object=False):
             outp = ctx.W.path('data', op['out_file'])
             if os.path.exists(outp):
                 ctx.stats['probes']['output_file_of_earlier_run_present'] += 1
-            rexpy.rexpy_streams(ex, outp,
-                                skip_header=bool(op.get('skip_header')),
-                                size=size, seed=op.get('seed'), **opts)
+            if op.get('io_fault'):
+                # the device fills up: the results cannot be written out
+                from sim import fsaudit
+                seam = fsaudit.FsSeam([ctx.W.root])
+                with seam:
+                    seam.begin_op({'kind': 'flush_error', 'site': 0,
+                                   'errno': 28, 'short': 0, 'flush': True},
+                                  None)
+                    try:
+                        rexpy.rexpy_streams(
+                            ex, outp, skip_header=bool(op.get('skip_header')),
+                            size=size, seed=op.get('seed'), **opts)
+                    finally:
+                        import gc
+                        gc.collect()
+                        for x in seam.fired:
+                            ctx.stats['faults']['io_' + x[0]] += 1
+                        seam.begin_op(None, None)
+            else:
+                rexpy.rexpy_streams(ex, outp,
+                                    skip_header=bool(op.get('skip_header')),
+                                    size=size, seed=op.get('seed'), **opts)
             with io.open(outp, encoding='utf-8', newline='\n') as f:
                 t = f.read()
             val = t.split('\n')[:-1] if t.endswith('\n') else t.split('\n')
@@ -917,10 +957,19 @@ def run_plain(ctx, op, kept):
     return ev
 
 
+def reported_io_fault(e):
+    from sim import fsaudit
+    return isinstance(e, fsaudit.FsFaultInjected)
+
+
 def check_c03(ctx, op, kept, outcome, val, rex, reg):
     ctx.stats['checks']['extract_calls'] += 1
     if not kept:
         ctx.stats['abstain']['no_kept_examples'] += 1
+        return
+    if outcome == 'exc' and reported_io_fault(val):
+        # the caller was told that the results could not be written
+        ctx.stats['abstain']['write_fault_reported_to_caller'] += 1
         return
     if outcome == 'exc':
         violation(ctx, op, 'raises', '%s/%s' % (reg, exc_tag(val)),
@@ -1006,13 +1055,41 @@ def run_tagpair(ctx, op, kept):
     rexpy = ctx.rexpy
     memo0 = dict(rexpy.memo)
     st0 = random.getstate()
-    o1, v1, obs1 = call_extract(ctx, op, tag=False)
-    st1 = random.getstate()
-    rexpy.memo.clear()
-    rexpy.memo.update(memo0)
-    random.setstate(st0)
-    o2, v2, obs2 = call_extract(ctx, op, tag=True)
-    random.setstate(st1)
+    if op.get('tag_by_reextract') and op['form'] in ('list', 'dict'):
+        # one extractor object: untagged first, then tag switched on and
+        # extract() called again on the same object
+        o1, x, obs1 = call_extract(ctx, op, tag=False, as_object=True)
+        st1 = random.getstate()
+        v1 = x
+        if o1 == 'ok':
+            v1 = list(x.results.rex) if x.results else []
+        o2, v2, obs2 = o1, v1, obs1
+        if o1 == 'ok':
+            rexpy.memo.clear()
+            rexpy.memo.update(memo0)
+            random.setstate(st0)
+            ctx.simr.begin(op.get('rs'))
+            try:
+                x.tag = True
+                x.extract()
+                o2, v2 = 'ok', (list(x.results.rex) if x.results else [])
+            except WatchdogTimeout:
+                raise
+            except BaseException as e:
+                if isinstance(e, (KeyboardInterrupt, SystemExit)):
+                    raise
+                o2, v2 = 'exc', e
+            obs2 = dict(obs1)
+            ctx.stats['probes']['tagged_by_re_extraction'] += 1
+        random.setstate(st1)
+    else:
+        o1, v1, obs1 = call_extract(ctx, op, tag=False)
+        st1 = random.getstate()
+        rexpy.memo.clear()
+        rexpy.memo.update(memo0)
+        random.setstate(st0)
+        o2, v2, obs2 = call_extract(ctx, op, tag=True)
+        random.setstate(st1)
     note_faults(ctx, op, obs1)
     reg = regime(op, obs1)
     ev = {'i': op['i'], 'op': 'tagpair', 'o1': o1, 'o2': o2,
@@ -1030,6 +1107,9 @@ def run_tagpair(ctx, op, kept):
     ctx.stats['checks']['tagpairs'] += 1
     opts = op.get('opts', {})
     for which, o, v, r in (('untagged', o1, v1, r1), ('tagged', o2, v2, r2)):
+        if o == 'exc' and reported_io_fault(v):
+            ctx.stats['abstain']['write_fault_reported_to_caller'] += 1
+            continue
         if o == 'exc':
             if kept:
                 violation(ctx, op, 'raises', '%s/%s/%s' % (which, reg,
